@@ -19,8 +19,12 @@ PID = "C17"
 B = 4
 
 
+BIG = 400
+
+
 def tree():
-    return {"a": {"f": b"AAAAaaaa11", "k": b"keep-a"}, "b": {"f": b"BBBBbbbb22", "k": b"keep-b"}}
+    return {"a": {"f": b"AAAAaaaa11", "k": b"keep-a", "bigf": b"A" * BIG},
+            "b": {"f": b"BBBBbbbb22", "k": b"keep-b", "bigf": b"B" * BIG}}
 
 
 def scripts(d):
@@ -41,10 +45,16 @@ def scripts(d):
         # a user with a connection limit of 2: a mistyped password and a second attempt, and a plain login
         "retry-login": ["USER bob", "PASS nope", "USER bob", "PASS pw", f"CWD /{d}", "PWD"],
         "login-bob": ["USER bob", "PASS pw", f"MLST /{d}/k", "PWD"],
+        # transfers that take seconds under the shared speed limit of the throttled runs
+        "big-upload": ["EPSV", "@data", f"STOR /{d}/big", "@dsend " + d * BIG, "@dclose", f"MLST /{d}/big"],
+        "big-download": ["EPSV", "@data", f"RETR /{d}/bigf", "PWD"],
+        "big-abort": ["EPSV", "@data", f"STOR /{d}/part", "@dsend " + d * (BIG // 2), "ABOR", "PWD"],
+        "big-abort-retr": ["EPSV", "@data", f"RETR /{d}/bigf", "ABOR", "PWD"],
+        "big-cut": ["EPSV", "@data", f"RETR /{d}/bigf", "@drop"],
     }
 
 
-NAMES = list(scripts("a"))
+NAMES = [n for n in scripts("a") if not n.startswith("big-")]
 
 
 def norm(transcript):
@@ -69,8 +79,13 @@ def run_pair(case, chooser):
     def users(a, base):
         return [a.User(base_path=base), a.User("bob", "pw", base_path=base, maximum_connections=2)]
 
+    skw = {"block_size": B, "wait_future_timeout": 1}
+    if case.get("throttle"):
+        # a server-wide limit shared by both sessions (virtual time: costs nothing); events are then fired with a frozen
+        # clock so that both sessions' transfers really wait on the shared throttle at the same time
+        skw.update(read_speed_limit=200, write_speed_limit=200, wait_future_timeout=1000)
     rig = Rig(chooser=chooser, n_sessions=2, tree=tree(), window=case.get("window", 65536), users=users,
-              server_kwargs={"block_size": B, "wait_future_timeout": 1},
+              server_kwargs=skw,
               backend=case.get("backend", "memory"), delay=case.get("delay", 0.0))
     try:
         w = rig.world
@@ -92,7 +107,14 @@ def run_pair(case, chooser):
             # fired: the two sessions act in the same instant (A's event is not settled before B's)
             if case.get("fire") and who == 0 and n + 1 < len(order) and order[n + 1] == 1:
                 e += "!"
-            rig.ev(who, e)
+            if case.get("throttle"):
+                base_e = e.rstrip("!")
+                urgent = base_e in ("ABOR", "@drop") or base_e.startswith("@")
+                if not urgent and not base_e.startswith(("EPSV", "PASV", "STOR", "RETR", "APPE")):
+                    w.settle()          # an ordinary command is sent only after the session got its pending replies
+                rig.ev(who, e, advance=0.5)
+            else:
+                rig.ev(who, e)
         w.settle()
         rig.collect()
         chooser.active = False
@@ -122,9 +144,11 @@ def orders(na, nb):
         yield o
 
 
-def compare(res, solo_a, solo_b, fire):
+def compare(res, solo_a, solo_b, fire, only=None):
     problems = []
     for d, solo in (("a", solo_a), ("b", solo_b)):
+        if only is not None and d != only:
+            continue
         got, want = res[d], solo[d]
         if fire:
             # replies may be read later than in the solo run but their sequence must be the same
@@ -137,7 +161,15 @@ def compare(res, solo_a, solo_b, fire):
         if got["data"] != want["data"]:
             problems.append({"kind": "data-differs-from-solo", "session": d, "got": repr(got["data"]),
                              "solo": repr(want["data"])})
-        if got["tree"] != want["tree"]:
+        gt, wt = dict(got["tree"]), dict(want["tree"])
+        for k_ in list(gt):
+            # how much of an *aborted* upload was stored before the abort landed legitimately depends on how the shared
+            # bandwidth was divided: only the prefix relation is required for that one file
+            if k_.endswith("/part") and k_ in wt and isinstance(gt[k_], bytes) and isinstance(wt[k_], bytes) \
+                    and (gt[k_].startswith(wt[k_]) or wt[k_].startswith(gt[k_])):
+                gt.pop(k_)
+                wt.pop(k_)
+        if gt != wt:
             problems.append({"kind": "tree-differs-from-solo", "session": d, "got": repr(got["tree"])[:300],
                              "solo": repr(want["tree"])[:300]})
     return problems
@@ -194,7 +226,7 @@ def _work(item):
                 part.counters[f"fired_dev{ch.deviations}"] += 1
                 if ch.deviations:
                     part.sample({"pair": [na, nb], "fired": True, "choices": ch.choices}, limit=1)
-                for p in compare(res, solo_a, solo_b, True):
+                for p in compare(res, solo_a, solo_b, True, only=extra.get("victim")):
                     part.violation({"kind": p["kind"], "pair": [na, nb], "fired": True},
                                    {"problem": p, "choices": ch.choices},
                                    replay={"case": case, "choices": ch.choices, "kinds": kinds})
@@ -218,6 +250,15 @@ def build_items(tier):
         fired = pairs
     for na, nb in fired:
         items.append(("fired", na, nb, {"bound": 1, "cap": 1500 if tier == "quick" else 20000}))
+    # the same under a speed limit shared by the two sessions: one session aborts / is cut / quits while the other's
+    # transfer is waiting on the shared throttle
+    for na in ("big-abort", "big-abort-retr", "big-cut", "big-upload"):
+        for nb in ("big-upload", "big-download"):
+            # when a mid-transfer abort / cut lands is a matter of timing, which the other session legitimately
+            # changes by using bandwidth: only the session that does *not* abort is compared with its solo run
+            items.append(("fired", na, nb, {"bound": 0 if tier == "quick" else 1, "cap": 3000, "throttle": True,
+                                            "victim": "b"}))
+            items.append(("fired", nb, na, {"bound": 0, "cap": 3000, "throttle": True, "victim": "a"}))
         if tier != "quick":
             items.append(("fired", na, nb, {"bound": 1, "cap": 20000, "backend": "slow", "delay": 0.125, "window": 1}))
     return items
@@ -234,6 +275,7 @@ def run(tier, seed, t0):
     bounds = {"scripts": NAMES, "pairs": "all ordered pairs" if tier != "quick" else "all ordered pairs with <= 12 events",
               "interleavings": "all merges of the two event lists (settling between events)",
               "fired": "alternating, no settle between command lines, <= 1 deviation (early/order/batch)",
+              "throttled": "8 pairs of multi-second transfers x both orders under a server-wide read/write limit shared by the sessions",
               "cases": len(items)}
     return report.finish(
         PID, tier, seed, "model_checking", part, t0,
@@ -254,6 +296,6 @@ def replay(path):
     solo_a = run_pair({**base, "order": seq, "solo": "a"}, Chooser())
     solo_b = run_pair({**base, "order": seq, "solo": "b"}, Chooser())
     res = run_pair(case, Chooser(rp["choices"], rp.get("kinds") or None))
-    pr = compare(res, solo_a, solo_b, case.get("fire", False))
+    pr = compare(res, solo_a, solo_b, case.get("fire", False), only=case.get("victim"))
     print(json.dumps(pr, indent=1, default=repr))
     return 1 if pr else 0
